@@ -13,7 +13,10 @@ fi
 export GOFLAGS=-mod=mod GOPROXY=off GOSUMDB=off GOTOOLCHAIN=local
 if ! go build ./... 2>/dev/null; then echo "PATCHED-TREE-DOES-NOT-BUILD"; git reset -q --hard; git clean -fdq; exit 2; fi
 git status --short | head -5
-cd /verif && ./check "$prop" "$tier" 2>&1 | cut -c1-400 | head -${LINES_MAX:-14}
-rc=${PIPESTATUS[0]}
+out=$(mktemp)
+cd /verif && ./check "$prop" "$tier" > "$out" 2>&1
+rc=$?
+cut -c1-400 "$out" | head -${LINES_MAX:-14}
+rm -f "$out"
 cd /repo && git reset -q --hard && git clean -fdq
 echo "exit=$rc"
